@@ -23,8 +23,7 @@ def run(ses):
     quick = ses.tier == "quick"
     units = ("image10q", "image11q")
     table_of = {u: u.rstrip("q") + "s" for u in units}
-    for unit in units:
-        records.check_unit(ses, unit, ["pixels"], table_of=table_of)
+    records.check_units(ses, units, ["pixels"], table_of=table_of)
     kinds = ("int", "slice_sym", "slice_none")
     cases = [("C*8", "slice_sym", "slice_none"), ("C*8", "int", "slice_none"), ("IU2", "slice_sym", "slice_sym")]
     if not quick:
